@@ -194,9 +194,12 @@ def srcIp (h : Host) (k : Kern) (dst : Addr) : Ip :=
   else if isMulticast dst.ip then (if k.mcIf != 0 then k.mcIf else h.ifIp)
   else if isLoopback dst.ip then h.loIp else h.ifIp
 
+/-- Errors of `udp_sendmsg` in the order the kernel checks them: the 16-bit length field, the route (a loopback
+source cannot leave through another interface), the size the IP layer can still fragment. -/
 def sendErr (k : Kern) (dst : Addr) (data : List UInt8) : Errc :=
-  if data.length > maxDatagram then .msgsize
+  if data.length > 65535 then .msgsize
   else if isMulticast dst.ip && specific k.name.ip && isLoopback k.name.ip && k.mcIf != 0 && !isLoopback k.mcIf then .inval
+  else if data.length > maxDatagram then .msgsize
   else .nil
 
 /-- Multicast loop-back delivery to socket `r` (udp4_lib_mcast_deliver + ip_mc_sf_allow). -/
